@@ -416,6 +416,28 @@ def b_importer_subclasses(tier):
                     bad.append((e, env, want, got, got2))
                     break
         return bad
+    # a subclass of CompiledExpression extending the context the documented way (take the base class's dict, add a name): later plain compilations are unaffected
+    import pymbolic
+    from pymbolic.compiler import CompiledExpression
+
+    class Scaled(CompiledExpression):
+        def context(self):
+            ctx = super().context()
+            ctx["scale"] = 10
+            return ctx
+    sc = p.Variable("scale")
+    e_sc = p.Sum((p.Product((sc, x)), p.Power(y, 2), p.Product((-1, z))))
+    for order in ("subclass-first", "plain-first"):
+        if order == "plain-first":
+            outcome.run(lambda: pymbolic.compile(e_sc))
+        r_sub = outcome.run(lambda: Scaled(e_sc)(2, 3, 4))          # free variables x, y, z; scale comes from the context
+        r_plain = outcome.run(lambda: pymbolic.compile(e_sc)(5, 2, 3, 4))       # scale, x, y, z in name order
+        r_pick = outcome.run(lambda: pickle.loads(pickle.dumps(pymbolic.compile(e_sc)))(5, 2, 3, 4))
+        b.case(("compile-context-subclass", order), nontrivial=True, sample=dict(order=order))
+        want_sub, want_plain = 10 * 2 + 9 - 4, 5 * 2 + 9 - 4
+        if r_sub != ("val", want_sub) or r_plain != ("val", want_plain) or r_pick != ("val", want_plain):
+            b.fail(Failure("importer-subclass-histories", f"subclass=CompiledExpression-with-context order={order}", dict(kind="imp-hist", subclass="Scaled", order=order), expected=f"{want_sub}, {want_plain}, {want_plain}",
+                           actual=f"{outcome.describe(r_sub)[:60]}, {outcome.describe(r_plain)[:80]}, {outcome.describe(r_pick)[:60]}", functions=["CompiledExpression.context", "CompiledExpression._compile"]))
     users = [("PowImporter", lambda: [PowImporter()(to_python_ast(e)) for e in exprs]), ("RenamingImporter", lambda: [RenamingImporter()(to_python_ast(e)) for e in exprs]),
              ("DoublingImporter", lambda: [DoublingImporter()(to_python_ast(e)) for e in exprs]), ("OddExporter", lambda: [OddExporter()(e) for e in exprs])]
     def subclass_ok(uname):
